@@ -29,11 +29,17 @@ func (p *Prog) SetKnown(known map[string]bool) {
 	// static call sites and value uses per function
 	static := map[*ssa.Function]int{}
 	valueUse := map[*ssa.Function]bool{}
+	immediate := map[*ssa.Function]bool{}
 	for _, fn := range p.allMod {
 		InstrsShallow(fn, func(in ssa.Instruction) {
 			var callee *ssa.Function
 			if c, ok := in.(ssa.CallInstruction); ok {
 				callee = c.Common().StaticCallee()
+				if _, viaClosure := c.Common().Value.(*ssa.MakeClosure); viaClosure {
+					if _, isCall := in.(*ssa.Call); isCall {
+						callee = nil // counted at the MakeClosure
+					}
+				}
 				if callee != nil {
 					if _, isCall := in.(*ssa.Call); isCall {
 						static[callee]++
@@ -41,6 +47,27 @@ func (p *Prog) SetKnown(known map[string]bool) {
 						valueUse[callee] = true // go / defer: not inlined
 					}
 				}
+			}
+			if mc, isMC := in.(*ssa.MakeClosure); isMC {
+				// a function literal that is only ever applied on the spot
+				// (`func() {...}()`) is a block with its own scope, not a value
+				if f, ok := mc.Fn.(*ssa.Function); ok {
+					refs := Referrers(mc)
+					onlyCalled := len(refs) > 0
+					for _, r := range refs {
+						cl, isCall := r.(*ssa.Call)
+						if !isCall || cl.Call.Value != ssa.Value(mc) {
+							onlyCalled = false
+						}
+					}
+					if onlyCalled {
+						static[f] += len(refs)
+						immediate[f] = true
+					} else {
+						valueUse[f] = true
+					}
+				}
+				return
 			}
 			for _, op := range in.Operands(nil) {
 				if *op == nil {
@@ -54,7 +81,7 @@ func (p *Prog) SetKnown(known map[string]bool) {
 	}
 	cand := map[*ssa.Function]bool{}
 	for _, fn := range p.allMod {
-		if fn.Parent() != nil || fn.Synthetic != "" && fn.Origin() == nil || len(fn.Blocks) == 0 {
+		if fn.Parent() != nil && !immediate[fn] || fn.Synthetic != "" && fn.Origin() == nil || len(fn.Blocks) == 0 {
 			continue
 		}
 		if p.IsTestFile(fn.Pos()) || fn.Name() == "init" || fn.Name() == "main" {
@@ -70,7 +97,7 @@ func (p *Prog) SetKnown(known map[string]bool) {
 		if known[name] || static[fn] == 0 || valueUse[fn] {
 			continue
 		}
-		if ast.IsExported(fn.Name()) {
+		if ast.IsExported(fn.Name()) && fn.Parent() == nil {
 			continue // part of the API: callable from outside in contexts of its own
 		}
 		cand[fn] = true
